@@ -96,6 +96,43 @@ def wrap_block(rem_wanted, dist=9):
     return bytes(b), out_size
 
 
+def zero_offset(b):
+    """does the sequence structure of the block contain a match offset of 0?"""
+    s = 0
+    try:
+        while True:
+            tok = b[s]; s += 1
+            ll = tok >> 4
+            if ll == 15:
+                while True:
+                    x = b[s]; s += 1; ll += x
+                    if x != 255:
+                        break
+            s += ll
+            if s >= len(b):
+                return False
+            d = b[s] | b[s + 1] << 8; s += 2
+            if d == 0:
+                return True
+            ml = tok & 15
+            if ml == 15:
+                while True:
+                    x = b[s]; s += 1; ml += x
+                    if x != 255:
+                        break
+    except IndexError:
+        return False
+
+
+def wrap_accept_blocks():
+    """Blocks whose length fields do not fit 32 bits and wrap to a small *plausible* value (found through the hypothesis lz4_sound first
+    needed: 'no length accumulator wraps'): no decoder of the block format accepts them, a decoder with wrapping accumulators decodes
+    them to a few bytes."""
+    lit = bytes([0xF0]) + b"\xff" * 16843009 + bytes([0]) + bytes(range(65, 79))                   # literal length 2^32 + 14 -> 14
+    mat = bytes([0x4F]) + b"abcd" + bytes([4, 0]) + b"\xff" * 16843008 + bytes([0xF5]) + bytes([0x50]) + b"zzzzz"   # match length 2^32 + 8 -> 8
+    return [("lit", lit, len(lit) + 64), ("mat", mat, len(mat) + 64)]
+
+
 def run_wrap(ctx, res):
     """Length-accumulator wrap-around (found by the in-bounds proof): inputs too large for a hex line go through files."""
     import tempfile, os, shutil
@@ -107,12 +144,20 @@ def run_wrap(ctx, res):
             path = os.path.join(tmp, "wrap-%d-%d.bin" % (rem, dist))
             open(path, "wb").write(blk)
             lines.append("lz4file %s %d aa" % (path, osz))
+        for name, blk, osz in wrap_accept_blocks():
+            path = os.path.join(tmp, "wrap-%s-0.bin" % name)
+            open(path, "wb").write(blk)
+            lines.append("lz4file %s %d aa" % (path, osz))
+        exe = lib.build_harness("h_lz4", libs=["-llz4"])
+        refs = dict(zip(lines, lib.run_lines([exe], ["lz4reffile %s %s" % (l.split()[1], l.split()[2]) for l in lines], per_chunk=1)))
 
         def holds(line, out):
             if out.startswith("CRASH"):
                 return False, "the implementation crashed"
             if out == "fault":
                 return False, "wrote outside the announced output size (match length field wrapping the 32-bit accumulator to 0; input: wrap_block(%s) of tools/props/c14.py)" % line.split("wrap-")[1].split(".bin")[0]
+            if not out.startswith("ret=-1") and refs.get(line) == "ref=-1":
+                return False, "accepted a block the reference decoder (liblz4) rejects: a length field that does not fit 32 bits wrapped to a small value (input: %s of tools/props/c14.py)" % ("wrap_accept_blocks()" if line.split("wrap-")[1][0] in "lm" else "wrap_block(%s)" % line.split("wrap-")[1].split(".bin")[0])
             return True, ""
         lib.correspond(ctx, res, "h_lz4", "lz4io", lines, holds, classify=lambda l, o: "wrap -> " + o.split()[0].split("=")[0] + ("=-1" if o.startswith("ret=-1") else ""),
                        rule="lz4file: 16.9 MB blocks whose match-length extension wraps the u32 accumulator to 0 with 5..40 bytes of output space left", per_chunk=1)
@@ -136,7 +181,18 @@ def run(ctx):
         lr = None if ref == "ref=-1" or not ref.startswith("ref=") else list(bytes.fromhex(ref.split("out=")[1])) if not ref.endswith("out=-") else []
         if pr != lr:
             pyref_mismatch += 1
-    res.extra["spec_validation"] = {"python_ref_vs_liblz4_mismatches": pyref_mismatch, "cases": len(cases)}
+    # the Lean reference decoder (Spec/Lz4Ref.lean, what lz4_sound is stated against) on the same blocks
+    specs = lib.run_lines([lib.driver_path(), "lz4"], ["lz4spec %s" % (lib.hexs(s) or "-") for _, s, n, _ in cases]) if ctx.model_ok else [None] * len(cases)
+    spec_of = {}
+    spec_mismatch = 0
+    for l, (kind, s, n, data), ref, sp in zip(lines, cases, refs, specs):
+        so = None if sp is None or not sp.startswith("spec=") or sp == "spec=-1" else ([] if sp.endswith("out=-") else list(bytes.fromhex(sp.split("out=")[1])))
+        spec_of[l] = (sp, so)
+        lr = None if ref == "ref=-1" or not ref.startswith("ref=") else list(bytes.fromhex(ref.split("out=")[1])) if not ref.endswith("out=-") else []
+        if sp is not None and lr is not None and so != lr and not (so is None and zero_offset(s)):
+            spec_mismatch += 1
+    res.extra["spec_validation"] = {"python_ref_vs_liblz4_mismatches": pyref_mismatch, "lean_reference_vs_liblz4_mismatches": spec_mismatch,
+                                    "lean_reference_accepts": sum(1 for v in spec_of.values() if v[1] is not None), "liblz4_accepts": sum(1 for r_ in refs if r_ != "ref=-1"), "cases": len(cases)}
 
     def holds(line, out):
         kind, s, n, data, ref = info[line]
@@ -156,6 +212,17 @@ def run(ctx):
             want = [] if want == "-" else list(bytes.fromhex(want))
             if got[:ret] != want:
                 return False, "produced bytes differ from the reference decoder's"
+            sp, so = spec_of.get(line, (None, None))
+            if sp is not None and so != got[:ret]:
+                return False, "lz4_sound fails on the implementation: the decoder returned %d bytes but the reference decoder of the block format (Spec/Lz4Ref.lean) %s" % (ret, "rejects the block" if so is None else "decodes it to other bytes")
+        sp, so = spec_of.get(line, (None, None))
+        if sp is not None and ref != "ref=-1" and ref.startswith("ref="):
+            want = ref.split("out=")[1]
+            want = [] if want == "-" else list(bytes.fromhex(want))
+            # liblz4 does not test the offset for 0 ("0 is an invalid offset value" in the format description): such blocks it decodes, the
+            # format - and Spec/Lz4Ref.lean, and graphite - reject them
+            if so != want and not (so is None and zero_offset(s)):
+                return False, "the Lean reference decoder (Spec/Lz4Ref.lean) disagrees with liblz4 on a block liblz4 accepts: the specification lz4_sound is stated against is not the block format"
         if data is not None and len(s) < len(data) and len(s) >= 13:
             if ret != len(data) or got != data:
                 return False, "a valid block shorter than its plaintext did not decode to the plaintext"
